@@ -213,12 +213,30 @@ func callDeferred(f *frame, val []reflect.Value) {
 	val[0].Call(val[1:])
 }
 
+// zeroUnnamedResults sets the results of function def in frame f to their zero
+// value, unless they are named. The result entries of f may be variables of the
+// caller, or may have been partially set by a return statement which panicked.
+func zeroUnnamedResults(def *node, f *frame) {
+	if def == nil || def.kind != funcDecl && def.kind != funcLit || len(def.child[2].child) < 3 {
+		return
+	}
+	if res := def.child[2].child[2].child; len(res) == 0 || len(res[0].child) > 1 {
+		return
+	}
+	for _, v := range f.data[:len(def.typ.ret)] {
+		if v.CanSet() {
+			v.Set(reflect.Zero(v.Type()))
+		}
+	}
+}
+
 // runCfg executes a node AST by walking its CFG and running node builtin at each step.
 func runCfg(n *node, f *frame, funcNode, callNode *node) {
 	var exec bltn
 	defer func() {
 		f.mutex.Lock()
 		f.recovered = recover()
+		panicked := f.recovered != nil
 		for _, val := range f.deferred {
 			callDeferred(f, val)
 		}
@@ -238,6 +256,10 @@ func runCfg(n *node, f *frame, funcNode, callNode *node) {
 			panic(f.recovered)
 		}
 		f.mutex.Unlock()
+		if panicked {
+			// The function body panicked and a deferred call recovered.
+			zeroUnnamedResults(funcNode, f)
+		}
 	}()
 
 	dbg := n.interp.debugger
